@@ -433,7 +433,25 @@ func checkC19(r *Run) {
 		defer os.RemoveAll(dir)
 		var p c19Project
 		opts := api.BuildOptions{Bundle: true, Write: false, Metafile: true, AbsWorkingDir: src, Outdir: filepath.Join(src, "out"), Platform: api.PlatformNode}
-		switch i % 3 {
+		switch i % 4 {
+		case 3:
+			// entry points that end up wrapped inside their own bundle: required by a module they import (a require cycle back
+			// to the entry), importing themselves dynamically without splitting, or written in CommonJS
+			var files map[string]string
+			switch rng.Intn(4) {
+			case 0:
+				files = map[string]string{"/entry.mjs": "import \"./dep.cjs\";\nexport function run() { return 1; }\nexport const version = " + fmt.Sprint(i) + ";\nexport default \"d\";\n",
+					"/dep.cjs": "const e = require(\"./entry.mjs\");\nexports.viaCycle = () => e.version;\n"}
+			case 1:
+				files = map[string]string{"/entry.mjs": "export const version = " + fmt.Sprint(i) + ";\nexport const self = () => import(\"./entry.mjs\");\nexport function run() {}\n"}
+			case 2:
+				files = map[string]string{"/entry.mjs": "import {helper} from \"./lib.mjs\";\nexport const out = helper;\nexport {helper as renamed};\n",
+					"/lib.mjs": "export const helper = () => import(\"./entry.mjs\").then(m => m.out);\n"}
+			default:
+				files = map[string]string{"/entry.mjs": "import {x} from \"./c.cjs\";\nexport const fromCjs = x;\n", "/c.cjs": "exports.x = 1;\nexports.back = () => require(\"./entry.mjs\");\n"}
+			}
+			p = c19Project{Files: files, Entries: []string{"/entry.mjs"}, Desc: "wrapped entry point"}
+			opts.Format = []api.Format{api.FormatESModule, api.FormatESModule, api.FormatCommonJS}[rng.Intn(3)]
 		case 0:
 			g := graphGen(rng, ggenOpts{MaxMods: 3 + rng.Intn(5), Cycles: rng.Bool(), Dynamic: rng.Bool()})
 			p = c19Project{Files: g.Files, Entries: []string{g.Entry}, Desc: strings.Join(g.Desc, ";")}
